@@ -58,10 +58,20 @@ def history(cfg, log, async_, rng, n_steps, recs, meta):
             calls.append((tag, oid, old, new, st.status_block))
         return cb
 
+    class Obs:
+        """an observer object: registering `o.cb` twice registers two equal, non-identical bound methods"""
+
+        def __init__(self, tag, oid):
+            self.tag, self.oid = tag, oid
+
+        def cb(self, sender, old, new):
+            calls.append((self.tag, self.oid, old, new, st.status_block))
+
     def obs(tag, oid):
         if (tag, oid) not in observers:
-            observers[(tag, oid)] = mk(tag, oid)
-        return observers[(tag, oid)]
+            observers[(tag, oid)] = mk(tag, oid) if oid == 1 else Obs(tag, oid)
+        o = observers[(tag, oid)]
+        return o if oid == 1 else o.cb          # a fresh bound method object at every use
 
     def do_watch(tag, oid):
         accs[tag].watch(obs(tag, oid))
@@ -86,6 +96,7 @@ def history(cfg, log, async_, rng, n_steps, recs, meta):
             do_watch(t, 2)
     name = f"{cfg['name']}+{log['name']}/{'async' if async_ else 'sync'}"
     two_byte = [t for t in tags if accs[t].length == 2]
+    prev_update = None
     for step in range(n_steps):
         # registration churn
         for _ in range(rng.randrange(0, 4)):
@@ -130,12 +141,21 @@ def history(cfg, log, async_, rng, n_steps, recs, meta):
             n = rng.choice([1, 2, 2, 3, 39, rng.randrange(1, 200)])
         n = max(1, min(n, 1024 - off))
         mode = rng.random()
-        if mode < 0.15:
+        repeat = prev_update is not None and rng.random() < 0.1
+        if repeat:
+            # the block is replaced wholesale (as on a reconnect) and the very same update arrives again
+            # (reset() also drops the accessor table, which a reconnect rebuilds: not used here)
+            st.set_status_block(bytes(rng.randrange(256) for _ in range(1024)))
+            old = st.status_block
+            off, seg = prev_update
+            n = len(seg)
+        elif mode < 0.15:
             seg = old[off:off + n]                         # rewrite with identical bytes
         elif mode < 0.5:
             seg = bytes(b ^ (1 << rng.randrange(8)) if rng.random() < 0.5 else b for b in old[off:off + n])
         else:
             seg = bytes(rng.randrange(256) for _ in range(n))
+        prev_update = (off, seg)
         calls.clear()
         st.replace_status_block_segment(off, seg)
         new = st.status_block
@@ -161,7 +181,8 @@ def history(cfg, log, async_, rng, n_steps, recs, meta):
         for (t, oid, o, nw, blk) in calls:
             crecs.append({"item": index[t], "o": oid, "old": _canon(accs[t], shapes[t], o),
                           "new": _canon(accs[t], shapes[t], nw), "sawnew": blk == new})
-        recs.append({"off": off, "n": n, "items": items, "calls": crecs})
+        recs.append({"off": off, "n": n, "items": items, "calls": crecs,
+                     "installed": new == old[:off] + seg + old[off + n:]})
         meta.append((name, step))
 
 
